@@ -73,6 +73,10 @@ pub struct Case {
     /// after its last row (matters to the sanitizer runs of C06)
     #[serde(default)]
     pub exact_alloc: bool,
+    /// (h, block): once `h` hits have been yielded in total, call `block_size(block)` on the running
+    /// scanner (the builder takes `&mut self`, so it can be called between two `next()` calls)
+    #[serde(default)]
+    pub reconfig: Vec<(usize, Block)>,
 }
 
 fn next_up(x: f32) -> f32 {
@@ -187,9 +191,13 @@ fn case_strategy(tier: Tier, near_tie: bool) -> BoxedStrategy<Case> {
         arm_strategy(),
         any::<bool>(),
         prop_oneof![3 => Just(0usize), 2 => 1usize..=3, 1 => 4usize..=40, 1 => Just(usize::MAX)],
-        (proptest::collection::vec(block_strategy(), 2), any::<bool>()),
+        (
+            proptest::collection::vec(block_strategy(), 2),
+            any::<bool>(),
+            prop_oneof![3 => Just(Vec::new()), 1 => proptest::collection::vec((prop_oneof![3 => 1usize..=4, 1 => 5usize..=60], block_strategy()), 1..=3)],
+        ),
     )
-        .prop_map(|(seq, mat, embed, extra_wrap, block, thr, arm, own_buffer, consumed, (alt_blocks, exact_alloc))| Case {
+        .prop_map(|(seq, mat, embed, extra_wrap, block, thr, arm, own_buffer, consumed, (alt_blocks, exact_alloc, reconfig))| Case {
             seq,
             mat,
             embed,
@@ -201,6 +209,7 @@ fn case_strategy(tier: Tier, near_tie: bool) -> BoxedStrategy<Case> {
             consumed,
             alt_blocks,
             exact_alloc,
+            reconfig,
         })
         .boxed()
 }
@@ -287,7 +296,7 @@ impl Sub for Exhaust {
         "exhaust"
     }
     fn rule(&self) -> &'static str {
-        "DNA sequence (L 0..2100, plus 8192+-40) x matrix (library / finite incl. finite wildcard column / -inf cells / small-int) x extra wrap rows x block size derived from the row count (R+d, ceil((R+d)/2), 1..64, 256, default) x threshold derived from the actual scores (exact score, next float above, midpoint, below min, -1e9, -inf, above max, default 0) x forced dispatcher arm x own score buffer; next() to exhaustion compared as a multiset with {(i, s_i): s_i >= t}; non-trivial = expected set neither empty nor everything and >= 2 blocks"
+        "DNA sequence (L 0..2100, plus 8192+-40) x matrix (library / finite incl. finite wildcard column / -inf cells / small-int) x extra wrap rows x block size derived from the row count (R+d, ceil((R+d)/2), 1..64, 256, default) x threshold derived from the actual scores (exact score, next float above, midpoint, below min, -1e9, -inf, above max, default 0) x forced dispatcher arm x own score buffer x (1 case in 4) 1-3 block_size() calls on the running scanner between two hits; next() to exhaustion compared as a multiset with {(i, s_i): s_i >= t}; non-trivial = expected set neither empty nor everything and >= 2 blocks"
     }
     fn cases(&self, tier: Tier) -> u64 {
         tier.pick(100_000, 3_000_000)
@@ -327,7 +336,16 @@ impl Sub for Exhaust {
         }
         let mut got: Vec<(usize, u32)> = Vec::new();
         let cap = n + 2;
+        let mut switched = 0usize;
         loop {
+            for (h, b) in &case.reconfig {
+                if *h == got.len() {
+                    if let Some(b) = b.resolve(s.rows) {
+                        scanner.block_size(b);
+                        switched += 1;
+                    }
+                }
+            }
             match scanner.next() {
                 Some(h) => {
                     got.push((h.position(), h.score().to_bits()));
@@ -345,6 +363,7 @@ impl Sub for Exhaust {
             return Verdict::Fail(Failure::new(format!("{}:not-fused", arm_sig(case.arm)), "next() after None yields a hit".to_string()));
         }
         info.comparisons += (got.len() + expected.len()) as u64;
+        info.class_if(switched > 0 && got.len() > case.reconfig.iter().map(|r| r.0).min().unwrap_or(0), "block-size-changed-between-two-hits");
         got.sort_unstable();
         expected.sort_unstable();
         if got != expected {
@@ -386,6 +405,7 @@ pub fn property02() -> Property {
         assumptions: vec![
             "'the exact score' of a position is the f32 left-to-right sum (bit-equal to ScoringMatrix::score_position); no tolerance is used",
             "thresholds are numbers (no NaN); block sizes >= 1; the sequence is configured for the motif before scanning",
+            "Scanner::block_size takes &mut self and may be called between two next() calls: the block size then applies to the blocks not yet scored, and the set of hits is the same for every such history",
             "hit order is unspecified: results are compared as multisets",
             "the scanner only exists for DNA with 32 columns on this platform; dispatcher arms are forced through the verif-hooks feature",
         ],
@@ -399,7 +419,7 @@ pub fn property02() -> Property {
 pub struct Best;
 
 /// Run `k` next() calls then max() under one block size; returns (consumed positions, best).
-fn run_max(case: &Case, s: &Setup, block: &Block, k: usize) -> (Vec<usize>, Option<(usize, f32)>) {
+fn run_max(case: &Case, s: &Setup, block: &Block, k: usize, reconfigure: bool) -> (Vec<usize>, Option<(usize, f32)>) {
     let mut scanner = Scanner::new(&s.pssm, &s.striped);
     if let Some(t) = s.thr {
         scanner.threshold(t);
@@ -413,9 +433,17 @@ fn run_max(case: &Case, s: &Setup, block: &Block, k: usize) -> (Vec<usize>, Opti
             Some(h) => consumed.push(h.position()),
             None => break,
         }
+        if reconfigure {
+            for (h, b) in &case.reconfig {
+                if *h == consumed.len() {
+                    if let Some(b) = b.resolve(s.rows) {
+                        scanner.block_size(b);
+                    }
+                }
+            }
+        }
     }
     let best = scanner.max().map(|h| (h.position(), h.score()));
-    let _ = case;
     (consumed, best)
 }
 
@@ -467,7 +495,7 @@ impl Sub for Best {
         blocks.extend(case.alt_blocks.iter().cloned());
         for (bi, block) in blocks.iter().enumerate() {
             let k = if bi == 0 { case.consumed } else { 0 };
-            let (consumed, best) = run_max(case, &s, block, k);
+            let (consumed, best) = run_max(case, &s, block, k, bi == 0);
             // consumed hits must be genuine and distinct (C02's business, but the oracle needs it)
             let remaining: Vec<usize> = hits.iter().cloned().filter(|i| !consumed.contains(i)).collect();
             info.comparisons += 1;
